@@ -118,7 +118,7 @@ static void cmd(char **tok,int nt){
 }
 static int global_line(char **tok,int nt){
   if(!strcmp(tok[0],"prepare")){ (void)nt;
-    gL[0]=link_make(0,2,44100,30,20000,7,0,-1,-1,-1,0); gL[1]=link_make(1,1,22050,10,9000,8,0,-1,-1,-1,0); gL[2]=link_make(2,2,32000,50,12000,9,0,-1,-1,-1,3);
+    gL[0]=link_make(0,2,44100,40,16000,16,0,-1,-1,-1,5);   /* second channel goes exactly silent at times: its residue vector is only ever cleared explicitly */ gL[1]=link_make(1,1,22050,10,9000,8,0,-1,-1,-1,0); gL[2]=link_make(2,2,32000,50,12000,9,0,-1,-1,-1,3);
     if(!gL[0]||!gL[1]||!gL[2]){ ev_begin("LinkFail"); ev_end(); return 1; }
     layout_t la[2]; memset(la,0,sizeof la); la[0].serial=11; la[1].serial=12; la[1].nppp=1; la[1].ppp[0]=2; link_t *a[2]={gL[0],gL[1]}; gF[0]=file_build(0,2,a,la);
     layout_t lb[2]; memset(lb,0,sizeof lb); lb[0].serial=21; lb[1].serial=22; lb[0].nppp=1; lb[0].ppp[0]=3; link_t *b[2]={gL[2],gL[1]}; gF[1]=file_build(1,2,b,lb);
